@@ -51,7 +51,7 @@ def run_workers(reqs, n):
 def permuted(case, rng):
     """another registration order that keeps the order of requests sharing (block, offset)"""
     edits = list(case.get("edits", []))
-    if len(edits) < 2:
+    if len(edits) < 2 or any(e.get("all") is not None for e in edits):
         return None
     groups = {}
     for e in edits:
@@ -79,13 +79,42 @@ def first_diff(a, b):
     return irdump.diff_paths(a, b)[:4]
 
 
+def vary(case, rng, k):
+    """things whose order could leak into the result: patches with prologues (register save order), modules that
+    were never laid out (block order before layout), several call sites of one function (return-edge updates)"""
+    asm_edits = [e for e in case["edits"] if "asm" in e and e["op"] in ("insert", "replace")]
+    if k % 3 == 0:
+        for e in asm_edits:
+            e["constraints"] = {"preserve": rng.random() < 0.7, "scratch": rng.choice([0, 1, 2]), "flags": rng.random() < 0.5,
+                                "clobbers": rng.sample(["rax", "rbx", "rcx", "rdx", "rsi", "rdi", "r8", "r12"], rng.randint(0, 3))}
+    if k % 5 == 1:
+        case["no_addr"] = True
+    if k % 7 == 2:
+        return three_callers(rng)
+    return case
+
+
+def three_callers(rng):
+    """f is called from three places; one or two of the call sites are deleted"""
+    text = [{"kind": "code", "func": 0, "entry": True, "insns": [["mov", 1], ["ret"]], "syms": [{"name": "f", "at_end": False}]}]
+    for i in range(3):
+        text.append({"kind": "code", "func": i + 1, "entry": True, "insns": [["nop"], ["call", "f"]], "syms": [{"name": "c%d" % i, "at_end": False}]})
+        text.append({"kind": "code", "func": i + 1, "insns": [["mov", 100 + i], ["ret"]], "syms": [{"name": "r%d" % i, "at_end": False}]})
+    edits = []
+    for i in rng.sample(range(3), rng.randint(1, 2)):
+        edits.append({"op": "delete", "block": 1 + 2 * i, "off": 0, "len": 6, "proxy": rng.random() < 0.3})
+    if rng.random() < 0.5:
+        edits.append({"op": "insert", "block": 0, "off": 0, "asm": "nop"})
+    return {"isa": "X64", "ff": "ELF", "text": text, "externs": ["ext_a"], "edits": edits}
+
+
 def run(ctx):
     import props.c10 as c10
 
     n = 6 if ctx.tier == "thorough" else 3
     cases = [LE.strip_case(c) for c in LE.load_corpus()]
-    for _ in range(ctx.budget(250, 5000)):
-        cases.append(LE.strip_case(emodify.gen_case(ctx.rng)))
+    for k in range(ctx.budget(250, 5000)):
+        cases.append(LE.strip_case(vary(emodify.gen_case(ctx.rng), ctx.rng, k)))
     reqs = []
     index = []
     for c in cases:
